@@ -18,10 +18,10 @@ import vlib
 from vlib import log, CheckError
 
 # (packet type, number of TLC processes the enumeration is split into: quick, thorough)
-C2S = [("CONNECT", 4, 10), ("PUBLISH", 2, 4), ("PUBACK", 1, 1), ("PUBREC", 1, 1), ("PUBREL", 1, 1), ("PUBCOMP", 1, 1),
-       ("SUBSCRIBE", 1, 1), ("UNSUBSCRIBE", 1, 1), ("PINGREQ", 1, 1), ("DISCONNECT", 1, 2), ("AUTH", 1, 2)]
-S2C = [("CONNACK", 5, 12), ("PUBLISH", 3, 6), ("PUBACK", 1, 1), ("PUBREC", 1, 1), ("PUBREL", 1, 1), ("PUBCOMP", 1, 1),
-       ("SUBACK", 1, 1), ("UNSUBACK", 1, 1), ("PINGRESP", 1, 1), ("DISCONNECT", 1, 1), ("AUTH", 1, 2)]
+C2S = [("CONNECT", 1, 12), ("PUBLISH", 1, 3), ("PUBACK", 1, 1), ("PUBREC", 1, 1), ("PUBREL", 1, 1), ("PUBCOMP", 1, 1),
+       ("SUBSCRIBE", 1, 1), ("UNSUBSCRIBE", 1, 1), ("PINGREQ", 1, 1), ("DISCONNECT", 1, 1), ("AUTH", 1, 1)]
+S2C = [("CONNACK", 2, 16), ("PUBLISH", 1, 4), ("PUBACK", 1, 1), ("PUBREC", 1, 1), ("PUBREL", 1, 1), ("PUBCOMP", 1, 1),
+       ("SUBACK", 1, 1), ("UNSUBACK", 1, 1), ("PINGRESP", 1, 1), ("DISCONNECT", 1, 1), ("AUTH", 1, 1)]
 PLAN = {"C17": ("c2s", C2S), "C18": ("s2c", S2C)}
 SPEC_FILES = ["Wire.tla", "WireVec.tla"]
 # the recursive operators of Wire.tla need a deep stack; the runs are short and many: serial GC and C1 only
@@ -62,6 +62,9 @@ def vectors(pid, tier):
     d, plan = PLAN[pid]
     cdir = os.path.join(vlib.WORK, "cache", "wirevec-%s-%s" % (_spec_hash(tier), tier))
     os.makedirs(cdir, exist_ok=True)
+    for other in os.listdir(os.path.dirname(cdir)):      # vector files of older versions of the spec
+        if other.startswith("wirevec-") and other.endswith("-" + tier) and other != os.path.basename(cdir):
+            shutil.rmtree(os.path.join(os.path.dirname(cdir), other), ignore_errors=True)
     jobs = []
     for (ptype, nq, nt) in plan:
         n = nq if tier == "quick" else nt
@@ -159,7 +162,7 @@ def report(pid, viols):
         with open(os.path.join(d, "note.txt"), "w") as f:
             f.write("property %s clause %s class %s: %d vector(s), first id %d\nreplay: python3 /verif/tools/stage_wire.py %s --replay %s\n"
                     % (pid, clause, cls, len(vs), vs[0]["id"], pid, d))
-        log("VIOLATION property=%s replay=%s clause=%s class=%s vectors=%d" % (pid, d, clause, cls, len(vs)))
+        log("VIOLATION property=%s replay=%s clause=%s class=%s" % (pid, d, clause, cls))
     return sum(len(v) for v in groups.values()), len(kn)
 
 
